@@ -5,7 +5,17 @@ from .client import Server, ServerDied, Timeout, FrameError, tdp, panic_signatur
 from . import gen, layout
 
 
-def arrive(srv, uri, text, salt, p=.33):
+def type_decl_spans(P, text):
+    """character index ranges of the type declarations of a generated program (places where an arrival edit is most telling:
+    everything that was resolved against the earlier version of a type has to be resolved again)"""
+    b = text.encode(); out = []
+    for t in P.types:
+        toks = list(gen.walk_toks(t.node))
+        if toks: out.append((len(b[:toks[0].start].decode()), len(b[:toks[-1].end].decode())))
+    return out
+
+
+def arrive(srv, uri, text, salt, p=.33, prefer=None):
     """opens the document; with probability p it *arrives* at the text by an edit: an earlier version (a random span and, half of the
     time, one blank missing) is opened and one didChange notification restores it. The server then holds exactly `text`, so every
     oracle applies unchanged, but the answers come from the incrementally updated analysis. Returns True if it arrived by an edit."""
@@ -13,6 +23,9 @@ def arrive(srv, uri, text, salt, p=.33):
     if p and r.random() < p and len(text) > 2:
         a, e = sorted(r.sample(range(len(text) + 1), 2))
         if r.random() < .5: e = min(e, a + r.choice([1, 3, 10, 40]))
+        if prefer and r.random() < .5:
+            pa_, pe_ = r.choice(prefer)                     # a piece of (or a whole) preferred range, e.g. a type declaration
+            if pe_ - pa_ >= 2: a, e = sorted(r.sample(range(pa_, pe_ + 1), 2)) if r.random() < .6 else (pa_, pe_)
         if e > a and not (a > 0 and text[a - 1] == "\r" and text[a:a + 1] == "\n") and not (text[e - 1:e] == "\r" and text[e:e + 1] == "\n"):
             t0 = text[:a] + text[e:]; span = text[a:e]
             T0 = layout.Text(t0); pa = T0.lsp(len(text[:a].encode()))
@@ -50,12 +63,12 @@ class Session:
             s.srv = Server(server_bin(s.variant), diagnostics=s.diagnostics)
         return s.srv
 
-    def open(s, text, tag="doc"):
+    def open(s, text, tag="doc", prefer=None):
         """opens the document, in a third of the cases by way of an edit (see `arrive`)"""
         s.n += 1
         uri = "file:///verif/%s%d.spl" % (tag, s.n)
         srv = s.server(); srv.drop_notes()
-        if arrive(srv, uri, text, s.n, s.via_edit): s.arrived += 1
+        if arrive(srv, uri, text, s.n, s.via_edit, prefer): s.arrived += 1
         return uri
 
     def close(s, uri):
